@@ -74,12 +74,12 @@ func TestProp(t *testing.T) {
 
 	only, skipMain := env.Only("c11")
 	if !skipMain {
-		for ci := 0; ci < nConfigs; ci++ {
-			if only >= 0 && only/perConfig != ci {
-				continue
-			}
-			runConfig(rep, env, ci, perConfig, only)
+		// stacks are independent; three at a time keep the cores busy (each runs one worker per upstream)
+		onlyCfg := -1
+		if only >= 0 {
+			onlyCfg = only / perConfig
 		}
+		vh.ForEach(nConfigs, 3, onlyCfg, func(ci int) { runConfig(rep, env, ci, perConfig, only) })
 	}
 	onlyE, skipE := env.Only("c11-empty")
 	if !skipE && only < 0 {
